@@ -20,7 +20,7 @@ META = {
              'RunningOrder. Signature = (configuration, counts vector, id count, allow_incomplete, expected, outcome).'),
     'exhaustive_part': 'the whole 4x4x4x2x2x2 count grid in every interpreter configuration',
     'workers': {'quick': 4, 'thorough': 8},
-    'watchdog': {'quick': 300, 'thorough': 1200},
+    'watchdog': {'quick': 600, 'thorough': 3600},
     'configs': [
         {'name': 'default', 'pyflags': (), 'workers': 4},
         {'name': 'O', 'pyflags': ('-O',), 'workers': 4},
@@ -209,6 +209,24 @@ def run(s):
                     judge(s, docs, allow, how, cfg, (n_c, n_d, n_o, n_r, two), tmpdir)
                 if allow is False and order == 0 and docs:
                     judge_reused_list(s, docs, cfg, (n_c, n_d, n_o, n_r, two))
+        # one message whose running-order ID is blank (or blank-looking), at every position of the message order,
+        # among messages of the running order RO: two running-order IDs, rejected wherever the odd one stands
+        base = build_docs(s.rng('positions'), 1, 1, 3, 0, False)
+        base = [d for d in base if '<roID>RO</roID>' in d]
+        pidx = 0
+        for pos in range(len(base)):
+            for odd in ('<roID/>', '<roID></roID>', '<roID> </roID>', '<roID>ro</roID>', '<roID>RO </roID>'):
+                for allow in (True, False):
+                    pidx += 1
+                    if not s.mine(pidx):
+                        continue
+                    import re as _re
+                    order_ = sorted(range(len(base)), key=lambda k_: K.message_id_of(base[k_]))
+                    docs = list(base)
+                    docs[order_[pos]] = docs[order_[pos]].replace('<roID>RO</roID>', odd, 1)
+                    for how in ('strings', 'files', 's3'):
+                        judge(s, docs, allow, how, cfg, ('odd-roID-at-position', pos, odd), tmpdir)
+                    s.hist['odd_roID_position_cases'] += 1
         # the same verdicts through `mosromgr merge`: status 2 exactly for the rejected collections
         import contextlib, io
         import mosromgr.cli as cli
